@@ -997,6 +997,63 @@ pub fn run(rep: &mut Report) {
     p.sample(json!({"cycle_crossover": [[1, 0, 2], [2, 1, 0]]}));
     rep.push(p);
 
+    // ---- the same helpers on long solutions (beyond any small-size fast path): deterministic pseudo-random
+    // permutations / index tuples / ranges, same oracles ----
+    let mut p = Part::new("helpers.long-solutions");
+    p.caps_hit.push("long solutions are covered on a deterministic family of instances, not exhaustively".to_string());
+    let lcg = |x: &mut u64| {
+        *x = x.wrapping_mul(6364136223846793005).wrapping_add(1442695040888963407);
+        (*x >> 33) as usize
+    };
+    let rand_perm = |n: usize, x: &mut u64| -> Vec<usize> {
+        let mut v: Vec<usize> = (0..n).collect();
+        for i in (1..n).rev() {
+            let j = lcg(x) % (i + 1);
+            v.swap(i, j);
+        }
+        v
+    };
+    let mut x = 0x1234_5678_9abc_def0u64 ^ seed;
+    for n in [15usize, 16, 17, 18, 31, 32, 33, 64, 65, 100, 257] {
+        let reps = if thorough { 40 } else { 8 };
+        for _ in 0..reps {
+            let (a, b) = (rand_perm(n, &mut x), rand_perm(n, &mut x));
+            p.transitions += 1;
+            p.traces += 1;
+            p.states += 1;
+            match catch(|| rf::cycle_crossover(&a, &b)) {
+                Ok(ch) => {
+                    let ok = is_permutation(&ch[0], n) && is_permutation(&ch[1], n) && (0..n).all(|i| (ch[0][i] == a[i] && ch[1][i] == b[i]) || (ch[0][i] == b[i] && ch[1][i] == a[i]));
+                    if !ok {
+                        p.violate("C13 helper=cycle_crossover genes".to_string(), format!("parents {:?} {:?}: children {:?}", a, b, ch), json!({"helper": "cx", "a": a, "b": b}));
+                    }
+                }
+                Err(e) => p.violate("C13 helper=cycle_crossover panic".to_string(), format!("parents {:?} {:?}: {}", a, b, e), json!({"helper": "cx", "a": a, "b": b})),
+            }
+            // circular swaps: index tuples of several sizes incl. contiguous runs in scrambled order
+            for k in [2usize, 3, n / 2, n - 1, n] {
+                if k < 2 || k > n {
+                    continue;
+                }
+                let idx: Vec<usize> = rand_perm(n, &mut x).into_iter().take(k).collect();
+                p.transitions += 1;
+                if let Some((sg, d)) = check_swap(&a, &idx) {
+                    p.violate(sg, d.chars().take(700).collect::<String>(), json!({"helper": "circular_swap", "perm": a, "indices": idx}));
+                }
+            }
+            // translocations: random range and target
+            let start = lcg(&mut x) % n;
+            let end = start + 1 + lcg(&mut x) % (n - start);
+            let index = lcg(&mut x) % (n - (end - start) + 1);
+            p.transitions += 1;
+            if let Some((sg, d)) = check_translocate(n, start, end, index) {
+                p.violate(sg, d.chars().take(700).collect::<String>(), json!({"helper": "translocate_slice", "n": n, "start": start, "end": end, "index": index}));
+            }
+        }
+        p.outcome(format!("n={}", n));
+    }
+    rep.push(p);
+
     // ---- components under generator tapes ----
     let (menu, depth): (&[u64], usize) = if thorough { (&MENU8, 5) } else { (&MENU4, 4) };
     let cases = component_cases(thorough);
